@@ -286,8 +286,19 @@ def runC07 (arch hex : String) : String :=
       | r => s!"d1=ok e1={encTag r}"
     | _, _, _ => s!"d1={outcomeTag d1}"
 
-def runLine (line : String) : String :=
+/-- `encrep k arch dump`: Encode is a function — repeated calls give identical bytes -/
+def runEncRep (arch dump : String) : String :=
+  match parseFile P dump with
+  | none => "bad-file"
+  | some f =>
+    match encode P (archOf arch) f with
+    | .ok _ _ => "same"
+    | .error => "err"
+    | .panic => "panic"
+
+def runLine1 (line : String) : String :=
   match splitOnChar line ' ' with
+  | ["encrep", _, arch, dump] => runEncRep arch dump
   | ["enc", arch, dump] => runEnc arch dump
   | ["rt", arch, dump] => runRt arch dump
   | ["c07", arch, hex] => runC07 arch hex
@@ -302,6 +313,29 @@ def runLine (line : String) : String :=
   | ["dec", entry, opts, rspec, accu, hex] => runDec entry opts rspec accu hex
   | ["dec", entry, opts, rspec, accu] => runDec entry opts rspec accu ""
   | _ => "bad-op"
+
+/-- a history: calls separated by `^`; the accumulators left by one call are the next call's -/
+def runHist (calls : List String) : String :=
+  let rec go (cs : List String) (accu : Option String) (acc : List String) (fuel : Nat) : List String :=
+    match fuel, cs with
+    | 0, _ => acc
+    | _, [] => acc
+    | fuel + 1, c :: rest =>
+      let toks := splitOnChar c ' '
+      let c' := match accu, toks with
+        | some a, "dec" :: e :: o :: r :: _ :: tl => joinWith " " ("dec" :: e :: o :: r :: a :: tl)
+        | _, _ => c
+      let out := runLine1 c'
+      let accu' := match toks, splitOnChar out ' ' with
+        | "dec" :: _, _ :: _ :: a :: _ => some a
+        | _, _ => accu
+      go rest accu' (acc ++ [out]) fuel
+  joinWith "^" (go calls none [] (calls.length + 1))
+
+def runLine (line : String) : String :=
+  match line.toList with
+  | 'h' :: 'i' :: 's' :: 't' :: ' ' :: rest => runHist (splitOnChar (String.ofList rest) '^')
+  | _ => runLine1 line
 
 partial def loop (h : IO.FS.Stream) (out : IO.FS.Stream) : IO Unit := do
   let line ← h.getLine
